@@ -131,7 +131,7 @@ def bounded_roundtrip(seed, n_archives):
     rnd = random.Random(seed)
     texts = ["", "plain text", "line1\nline2\r\nline3\r", "\n --page-- x", " --page-- {}", "\x0c --pag", "a\n\x0c --page--", "ä中\U0001F600",
              "--page--\n", "x\n --page-- {\"title\": \"fake\"}\n"]
-    titles = ["Main", "Talk:Foo bar", "Ärger", "A/B", "User:X-1.2~3", "Category:Z", "ßeta"]
+    titles = ["Main", "Talk:Foo bar", "Ärger", "A/B", "User:X-1.2~3", "Category:Z", "ßeta", "\u10e1\u10d0\u10e5\u10d0\u10e0\u10d7\u10d5\u10d4\u10da\u10dd", "Star Trek: Voyager"]
     total = 0
     for a in range(n_archives):
         base = tempfile.mkdtemp(prefix="c14_")
